@@ -341,6 +341,51 @@ fn collect(text: &str, heap: &Heap, global: &GlobalSignature, m: &Module<T>) -> 
   c.out
 }
 
+/// All expression trees of the inference-shape grammar with at most `max_internal` internal nodes.
+fn shape_trees(max_internal: usize) -> Vec<String> {
+  (0..=max_internal).flat_map(shape_trees_exact).collect()
+}
+
+fn shape_trees_exact(internal: usize) -> Vec<String> {
+  if internal == 0 {
+    return vec!["Option.None()".into(), "Option.Some(1)".into(), "Option.Some(\"oops\")".into()];
+  }
+  let mut out = vec![];
+  for e in shape_trees_exact(internal - 1) {
+    out.push(format!("Main.id({e})"));
+    out.push(format!("{{ let z = 1; {e} }}"));
+    out.push(format!("Main.app(() -> {e})"));
+  }
+  for left in 0..internal {
+    let right = internal - 1 - left;
+    let ls = shape_trees_exact(left);
+    let rs = shape_trees_exact(right);
+    for a in &ls {
+      for b in &rs {
+        out.push(format!("if c {{ {a} }} else {{ {b} }}"));
+        out.push(format!("match o {{ None -> {a}, Some(_) -> {b} }}"));
+        out.push(format!("Main.first({a}, {b})"));
+      }
+    }
+  }
+  out
+}
+
+fn shape_module(stmt: &str) -> String {
+  format!(
+    "class Option<T>(None, Some(T)) {{}}\nclass Box<T>(val v: T) {{\n  method <R> w(a: Option<T>, r: R): R = r\n}}\nclass Main {{\n  function <T> id(x: T): T = x\n  function <T> first(a: T, b: T): T = a\n  function <T> app(f: () -> T): T = f()\n  function takeOpt(a: Option<int>): int = 0\n  function <T> pick(a: Option<int>, b: T): T = b\n  function <T> pick2(b: T, a: Option<int>): T = b\n  function run(c: bool, o: Option<bool>): unit = {{\n    {stmt}\n  }}\n}}\n"
+  )
+}
+
+fn shape_errors(text: &str) -> usize {
+  let mut heap = Heap::new();
+  let me = vcore::exec::module_ref(&mut heap, "Shape");
+  let mut es = ErrorSet::new();
+  let pm = samlang_parser::parse_source_module_from_text(text, me, &mut heap, &mut es);
+  let _ = samlang_checker::type_check_sources(&HashMap::from([(me, pm)]), &mut es);
+  es.errors().iter().filter(|e| e.location.module_reference == me).count()
+}
+
 fn apply(text: &str, m: &Mutant) -> String {
   format!("{}{}{}", &text[..m.start], m.replacement, &text[m.end..])
 }
@@ -571,6 +616,71 @@ fn main() {
     e.0 += 1;
     e.1 += caught as u64;
   });
+  // ---- inference shapes: every expression tree over hint-dependent / generic-call nodes with a
+  // wrongly typed leaf, in every context that fixes the expected type ----
+  let max_internal = if run.quick() { 2 } else { 3 };
+  let deep_internal = if run.quick() { 0 } else { 4 };
+  let trees = shape_trees(max_internal);
+  let deep: Vec<String> = if deep_internal > 0 { shape_trees_exact(deep_internal) } else { vec![] };
+  let shape_contexts: &[(&str, &str)] = &[
+    ("closed-parameter", "let _ = Main.takeOpt(@);"),
+    ("generic-function-closed-parameter", "let _ = Main.pick(@, 0);"),
+    ("generic-function-closed-parameter-last", "let _ = Main.pick2(0, @);"),
+    ("annotation", "let _: Option<int> = @;"),
+    ("generic-method-of-instantiated-class", "let _ = Box.init(1).w(@, 0);"),
+    ("return-position", "let _ = () -> Main.takeOpt(@);"),
+  ];
+  let shapes_checked = AtomicU64::new(0);
+  let shapes_vacuous = AtomicU64::new(0);
+  let shape_jobs: Vec<(&str, &str, &String)> = shape_contexts
+    .iter()
+    .flat_map(|(k, c)| trees.iter().map(move |t| (*k, *c, t)))
+    .chain(shape_contexts.iter().take(2).flat_map(|(k, c)| deep.iter().map(move |t| (*k, *c, t))))
+    .filter(|(_, _, t)| t.contains("\"oops\""))
+    .collect();
+  shape_jobs.par_iter().for_each(|(kind, ctx, tree)| {
+    shapes_checked.fetch_add(1, Ordering::Relaxed);
+    let bad = shape_module(&ctx.replace('@', tree));
+    let good = shape_module(&ctx.replace('@', &tree.replace("\"oops\"", "2")));
+    let r = guarded(|| (shape_errors(&bad), shape_errors(&good)));
+    match r {
+      Err(p) => run.violation(
+        &format!("panic:inference-shape:{p}"),
+        &format!("front end panicked on `{}`: {p}", ctx.replace('@', tree)),
+        json!({"kind": "inference-shape", "site": ctx.replace('@', tree), "mutated_text": bad}),
+      ),
+      Ok((0, _)) => run.violation(
+        &format!("accepted:inference-shape:{kind}"),
+        &format!("`{}` passes an Option<Str> where Option<int> is required and is accepted without any error", ctx.replace('@', tree)),
+        json!({"kind": "inference-shape", "site": ctx.replace('@', tree), "mutated_text": bad}),
+      ),
+      Ok((_, g)) => {
+        if g != 0 {
+          shapes_vacuous.fetch_add(1, Ordering::Relaxed);
+        }
+      }
+    }
+  });
+  // emits no code: one compile per context
+  for (kind, ctx) in shape_contexts {
+    let text = shape_module(&ctx.replace('@', "if c { Option.None() } else { Main.id(Option.Some(\"oops\")) }"));
+    let r = guarded(|| {
+      let mut h = Heap::new();
+      let me = vcore::exec::module_ref(&mut h, "Shape");
+      samlang_compiler::compile_sources(&mut h, HashMap::from([(me, text.clone())]), vec![me], false).is_err()
+    });
+    match r {
+      Ok(true) => {}
+      Ok(false) => run.violation(&format!("compiled:inference-shape:{kind}"), &format!("compile_sources emitted code for an ill-typed {kind} shape"), json!({"kind": "inference-shape", "site": kind, "mutated_text": text})),
+      Err(p) => run.violation(&format!("compile-panic:inference-shape:{p}"), &format!("compile_sources panicked on an ill-typed {kind} shape: {p}"), json!({"kind": "inference-shape", "site": kind, "mutated_text": text})),
+    }
+  }
+  {
+    let mut g = per_kind.lock().unwrap();
+    let n = shapes_checked.load(Ordering::Relaxed);
+    g.insert("inference-shape", (n, n));
+    evaluated.fetch_add(n, Ordering::Relaxed);
+  }
   let kinds = per_kind.lock().unwrap().clone();
   let pool = sample_pool.lock().unwrap().clone();
   let n_sites = distinct_sites.lock().unwrap().len();
@@ -583,6 +693,8 @@ fn main() {
       "modules_mutated": modules.len(),
       "mutants_and_caught_per_fault_kind": kinds.iter().map(|(k, (a, b))| (k.to_string(), json!([a, b]))).collect::<BTreeMap<_, _>>(),
       "full_pipeline_compile_checks": full_compiles.load(Ordering::Relaxed),
+      "inference_shapes": {"trees_with_wrong_leaf_checked": shapes_checked.load(Ordering::Relaxed), "contexts": shape_contexts.len(), "max_internal_nodes_all_contexts": max_internal, "internal_nodes_first_two_contexts": deep_internal, "well_typed_twin_rejected_too": shapes_vacuous.load(Ordering::Relaxed),
+        "grammar": "E ::= Option.None() | Option.Some(1) | Option.Some(\"oops\") | Main.id(E) | { let z = 1; E } | Main.app(() -> E) | if c {E} else {E} | match o {None -> E, Some(_) -> E} | Main.first(E, E)"},
       "exhaustive": true,
     }),
     vec![
